@@ -392,6 +392,9 @@ def worker(w, cfg):
         return w_lazy(w, cfg)
     if cfg["kind"] == "accessor":
         return w_accessor(w, cfg)
+    if cfg["kind"] == "dask_name":
+        from . import C16
+        return C16.w_dask_name(w, cfg)      # the explicit dask graph of zonal.mean: layer names separate calls that differ (shared with C16)
     raise Unsupported(cfg["kind"])
 
 
@@ -412,6 +415,7 @@ def configs(tier):
     for k in (1, 2, 3):
         cf.append({"kind": "accessor", "tchunks": k, "lead": True})
     cf.append({"kind": "accessor", "tchunks": 1, "lead": False})
+    cf.append({"kind": "dask_name"})
     for cdt in ("uint8", "int32"):
         cf.append({"kind": "accessor", "tchunks": 2, "lead": True, "dtype": cdt})
         cf.append({"kind": "accessor", "tchunks": 1, "lead": False, "dtype": cdt})
@@ -419,7 +423,9 @@ def configs(tier):
 
 
 def replay_candidate(chk, c):
-    if c["input"].get("accessor_dask"):
+    if c["input"].get("kind") == "dask_names":
+        r = chk.replayer.call("c16_dask_names", vary=c["input"]["vary"])
+    elif c["input"].get("accessor_dask"):
         r = chk.replayer.call("c12_autocorr_dask", tchunks=c["input"]["tchunks"], lead=c["input"]["lead"], nodata=c["input"]["nodata"],
                               dtype=c["input"].get("dtype", "int16"))
     elif c["input"].get("lazy"):
